@@ -338,4 +338,29 @@ theorem C18_witness_stamped_at_send :
     ∧ (listed (run true { table := [], conns := [] } [(ownerAd true [1] [2] inf rc, [9]), (ownerWithdrawal [1] [2] rc, [9])]).1).length = 0 := by
   decide
 
+
+/-- the blocks of `Close` as the source has them (regenerated fact `ads_close_order`) -/
+def closeOfFacts : List (List CloseAct) :=
+  if Receptor.Facts.ads_close_order = "lock<unregister<withdraw" then closeOfSource else closeStampFirst
+
+theorem closeOfFacts_eq : closeOfFacts = closeOfSource := by decide +kernel
+
+def olderThanWithdrawal (r : Option (Nat × Nat)) : Bool :=
+  match r with
+  | some (a, w) => a < w
+  | none => true
+
+/-- **close_serialised_with_rounds.** Wherever an advertisement round falls relative to `Close`: either it does not see
+the socket any more and emits nothing, or its advertisement is older than the withdrawal. -/
+theorem close_serialised_with_rounds (pos : Nat) (h : pos ≤ closeOfSource.length) :
+    olderThanWithdrawal (closeVsRound closeOfSource pos) = true := by
+  have h1 : pos = 0 ∨ pos = 1 := by
+    simp only [closeOfSource, List.length_cons, List.length_nil] at h
+    omega
+  rcases h1 with rfl | rfl <;> decide
+
+/-- Witness: with the withdrawal stamped before the lock is taken, a round in between emits an advertisement newer than it -/
+theorem C18_witness_stamp_before_lock : closeVsRound closeStampFirst 1 = some (1, 0) := by decide
+
+
 end Receptor.Ads
